@@ -1,6 +1,7 @@
 package main
 
 import (
+	"go/token"
 	"fmt"
 	"go/types"
 	"sort"
@@ -215,14 +216,51 @@ func (fr *Frame) callBuiltin(ins *ssa.Call, b *ssa.Builtin, c *ssa.CallCommon, s
 		}
 		nl := fmt.Sprintf("(+ %s %s)", lx, ly)
 		isnil := fmt.Sprintf("(and (nil_%s %s) (= %s 0))", sn, x.t, ly)
-		return []Val{{t: vc.define(regName(ins), sn, vc.mkSlice(st, ins.Type(), arr, nl, isnil)), typ: ins.Type()}}
+		if x.resl != nil {
+			// append on a slice that was cut short (s[:i]): with spare capacity it overwrites elements of the slice it
+			// was cut from. Modelled as a write of unknown elements into that slice (checked against the frame).
+			fr.clobberSlice(st, *x.resl, ins.Pos(), "append on a re-sliced slice")
+		}
+		return []Val{{t: vc.define(regName(ins), sn, vc.mkSlice(st, ins.Type(), arr, nl, isnil)), typ: ins.Type(), backing: x.backing}}
 	case "delete":
 		m := fr.val(c.Args[0])
 		mt := c.Args[0].Type().Underlying().(*types.Map)
 		k := fr.term(c.Args[1])
 		ex.mapDelete(fr, st, mt, m.t, k, ins.Pos())
 		return nil
-	case "copy", "print", "println", "min", "max", "clear", "recover", "new", "real", "imag", "complex", "close":
+	case "copy":
+		dst := fr.val(c.Args[0])
+		src := fr.val(c.Args[1])
+		if _, isStr := c.Args[1].Type().Underlying().(*types.Basic); isStr {
+			unsup("copy(bytes, string)")
+		}
+		sn := S.sortOf(dst.typ)
+		ld := fmt.Sprintf("(len_%s %s)", sn, dst.t)
+		ls := fmt.Sprintf("(len_%s %s)", S.sortOf(src.typ), src.t)
+		n := vc.define("ncopy", "Int", ite(fmt.Sprintf("(< %s %s)", ld, ls), ld, ls))
+		if S.handle[sn] {
+			unsup("copy into a slice of a recursive element type")
+		}
+		root := dst
+		if dst.resl != nil {
+			root = *dst.resl
+		}
+		if root.origin == nil {
+			vc.droppedStores++
+			vc.note("copy into a slice without known origin dropped (functional posts about that slice are not trusted)")
+		} else if dst.resl != nil {
+			fr.clobberSlice(st, root, ins.Pos(), "copy into a re-sliced slice")
+		} else {
+			es := S.sortOf(dst.typ.Underlying().(*types.Slice).Elem())
+			da := vc.sliceArr(st, dst.typ, dst.t)
+			sa := vc.sliceArr(st, src.typ, src.t)
+			arr := vc.fresh("cpy", "(Array Int "+es+")")
+			vc.assume(st.pc, fmt.Sprintf("(forall ((i Int)) (! (= (select %s i) (ite (and (<= 0 i) (< i %s)) (select %s i) (select %s i))) :pattern ((select %s i))))", arr, n, sa, da, arr))
+			ns := vc.mkSlice(st, dst.typ, arr, ld, fmt.Sprintf("(nil_%s %s)", sn, dst.t))
+			ex.store(fr, st, root.origin, Val{t: vc.define("sl", sn, ns), typ: dst.typ}, ins.Pos())
+		}
+		return []Val{{t: n, typ: tInt}}
+	case "print", "println", "min", "max", "clear", "recover", "new", "real", "imag", "complex", "close":
 		unsup("builtin %s", b.Name())
 	}
 	unsup("builtin %s", b.Name())
@@ -347,6 +385,13 @@ func (fr *Frame) applyExtern(ins *ssa.Call, fc *FuncContract, fo *types.Func, re
 	for i, r := range fc.Requires {
 		g := ex.trClause(tc, r)
 		fr.safetyObNamed(st, "pre@"+fo.Name(), fmt.Sprintf("precondition %d of %s: %s", i+1, fo.FullName(), r.Src), ins.Pos(), g)
+	}
+	for _, cn := range fc.Clobbers {
+		for i, a := range args {
+			if i < sig.Params().Len() && sig.Params().At(i).Name() == cn {
+				fr.clobberSlice(st, a, ins.Pos(), "dependency "+fo.Name()+" overwrites the elements of its argument")
+			}
+		}
 	}
 	var results []Val
 	if fc.Pure {
@@ -726,5 +771,36 @@ func (fr *Frame) callsiteObligations(ins *ssa.Call, fn *ssa.Function, args []Val
 			kind += "@" + fr.fn.Name()
 		}
 		ex.vc.oblige(kind, fmt.Sprintf("call-site condition %d for %s: %s", i+1, fn.Name(), c.Src), ex.pos(ins.Pos()), st.pc, g)
+	}
+}
+
+// clobberSlice: unknown elements are written into slice v (same length): through the place it was loaded from when
+// that is known (a frame-checked store), otherwise the store is dropped with a note.
+func (fr *Frame) clobberSlice(st *State, v Val, pos token.Pos, why string) {
+	ex := fr.ex
+	vc := ex.vc
+	S := ex.eng.S
+	sn := S.sortOf(v.typ)
+	if S.handle[sn] {
+		unsup("%s of a recursive element type", why)
+	}
+	var places []*Place
+	if v.backing != nil {
+		places = append(places, v.backing)
+	}
+	if v.origin != nil && v.origin != v.backing {
+		places = append(places, v.origin)
+	}
+	if len(places) == 0 {
+		vc.droppedStores++
+		vc.note(why + ": the slice has no known origin; the overwrite is dropped (functional posts about that slice are not trusted)")
+		return
+	}
+	es := S.sortOf(v.typ.Underlying().(*types.Slice).Elem())
+	for _, pl := range places {
+		cur := ex.load(st, pl)
+		arr := vc.fresh("clob", "(Array Int "+es+")")
+		ns := vc.mkSlice(st, v.typ, arr, fmt.Sprintf("(len_%s %s)", sn, cur.t), fmt.Sprintf("(nil_%s %s)", sn, cur.t))
+		ex.store(fr, st, pl, Val{t: vc.define("sl", sn, ns), typ: v.typ, backing: cur.backing}, pos)
 	}
 }
